@@ -153,9 +153,15 @@ def h2_system(ctx, K, stop, ray, obj, mirror=False, edit=False):
         o = L.build(aperture=('EPD', epd), field_type='angle', fields=(series(ctx, 0.0, th),))
         P = 0.0
         H = 1.0
-    epl = ctx.val(o.paraxial.EPL())
-    if not ctx.finite(epl):
-        return          # (stop in the focal plane of the front group: the entrance pupil is at infinity, no ray can be aimed at it)
+    def pupil_ok():
+        epl = ctx.val(o.paraxial.EPL())
+        if not ctx.finite(epl):
+            return False    # (stop in the focal plane of the front group: the entrance pupil is at infinity, no ray can be aimed at it)
+        if obj == 'finite':
+            ctx.assume(ctx.Not(ctx.eq(epl, ctx.val(o.surface_group.positions[0]))))     # (entrance pupil in the object plane: aim point = start point)
+        return True
+    if not pupil_ok():
+        return
     if ctx.sym:
         from symopt.facade import oarr
         arrP = oarr([P]) if not isinstance(P, float) else ctx.arr(P)
@@ -166,6 +172,8 @@ def h2_system(ctx, K, stop, ray, obj, mirror=False, edit=False):
         o.trace_generic(0.0, H, ctx.arr(0.0), arrP, 0.55)
         o.paraxial.EPL()
         o.set_index(ctx.real('n_new', lo=1.0, hi=4.0), 1)
+        if not pupil_ok():
+            return
     o.trace_generic(0.0, H, ctx.arr(0.0), arrP, 0.55)
     sg = o.surface_group
     real_y = [ctx.val(v) for v in sg.y]      # (read before the paraxial queries: they re-use the per-surface records)
